@@ -217,6 +217,34 @@ def generate(rng, tier):
                 ln = s.add("trace U C %s %s %s %d" % (hx(f1["pc"]), regs, cid, len(fr) + 4), tag="x86:pe-pops:cut")
                 s.meta[ln] = {"role": "cut", "ref": full, "cut": cut, "arch": "x86", "sp0": f1["regs_in"][4]}
         out.append(("pe-pops-%d" % w, s))
+    # a null return address ends the stack in a caller frame of ANY size - also a frame of size zero, where the same
+    # step with a non-null word would be refused as "did not advance" (the null test comes first; seeded change C11-12
+    # swapped the two on aarch64). Rows with CFA = sp + 0 / + 16 and the return address at or above the CFA.
+    for arch in ("x86", "a64"):
+        R = ARCH_REGS[arch]
+        s = Script(arch, "may")
+        rows = []
+        for cfa_off in ((8, 16) if arch == "x86" else (0, 16)):
+            for slot in ((-8,) if arch == "x86" else (8, 0, -8, 16)):
+                if arch == "a64" and cfa_off + slot < 0:
+                    continue
+                rows.append(dict(cfa=("r", R["sp"], cfa_off), fp=("s",), ra=("o", slot)))
+        fdes = [dict(start=0x1000 + 0x10 * i, len=0x10, rows=[(0, r)]) for i, r in enumerate(rows)]
+        s.module_dwarf("M", 0x100000, 0x102000, 0x100000, 0, "eh", fdes, rng)
+        s.add("new U"); s.add("add U M")
+        sp0 = 0x7100
+        for i, r in enumerate(rows):
+            slot_a = sp0 + r["cfa"][2] + r["ra"][1]
+            for val, role in ((0, "nullcaller"), (0x101000 + 0x10 * i + 5, None)):
+                mid = "N%d_%d" % (i, 1 if val else 0)
+                s.mem(mid, [(sp0 - 0x20 + 8 * j, 0x101000 + 4 + 0x10 * (j % len(rows))) for j in range(16) if sp0 - 0x20 + 8 * j != slot_a] + [(slot_a, val)])
+                a = 0x101000 + 0x10 * i + 4
+                regs = s.regs_x86(a, sp0, 0x7180) if arch == "x86" else s.regs_a64(M64, 0x101234, sp0, 0x7180)
+                s.add("newcache C")
+                ln = s.add("unwind U C ra %s %s %s" % (hx(a + 1), regs, mid), tag="%s:nullcaller:%d:%d:%s" % (arch, r["cfa"][2], r["ra"][1], "null" if not val else "word"))
+                if role:
+                    s.meta[ln] = {"role": role}
+        out.append(("nullcaller-%s" % arch, s))
     # a null return address is a root marker on the generic (uncacheable) path too
     for w in range(6 if tier == "quick" else 60):
         arch = "x86" if w % 2 == 0 else "a64"
@@ -325,6 +353,10 @@ def judge(script, impl):
             o = vlib.outcome(line)
             if o[:2] == ("ok", "some") and o[2] == 0:
                 bad.append((ln, "a null return address was reported as the caller's address instead of ending the stack: " + line[:200]))
+            continue
+        if line is not None and m.get("role") == "nullcaller":
+            if vlib.outcome(line)[:2] != ("ok", "none"):
+                bad.append((ln, "a null return address in a caller frame is the end of the stack (Ok(None)), got: " + line[:200]))
             continue
         if line is not None and m.get("role") == "hole":
             o = vlib.outcome(line)
